@@ -4,6 +4,8 @@
 From Coq Require Import String NArith Bool List.
 From V Require Import Base.Bytes TLS.TlsModel gen.CtTypes CT.CtFuncs X509.Der CTFE.ChainStoreModel CTFE.ChainStoreForms
   CTFE.ChainStoreProofs CTFE.ChainStoreTheorems.
+From Coq Require Import ZArith.
+From V Require Import gen.Services CTFE.ChainStoreGenTie.
 Import ListNotations.
 Local Open Scope N_scope.
 
@@ -90,3 +92,11 @@ Proof.
   split; [vm_compute; split; discriminate|]. split; [vm_compute; reflexivity|].
   exists []. split; [vm_compute; discriminate | reflexivity].
 Qed.
+
+(* the test "this stored entry names a chain hash" as services.go FixLogLeaf makes it today (translated on every
+   run, both entry forms) is the test of the model's fix_leaf: a lookup happens exactly for a non-empty hash *)
+Theorem fix_leaf_hash_test_as_in_source : forall h : bytes,
+  negb (length h =? 0)%nat = fix_precert_has_hash_gen (Z.of_nat (length h)) /\
+  negb (length h =? 0)%nat = fix_cert_has_hash_gen (Z.of_nat (length h)).
+Proof. exact fix_has_hash_meaning. Qed.
+Print Assumptions fix_leaf_hash_test_as_in_source.
